@@ -437,6 +437,12 @@ def _git_argv():
                     if exp_argv is not None and calls[0][0] != exp_argv:
                         a.fail(meth + "_argv", meth + "-wrong-argv", inp, exp_argv, [c[0] for c in calls])
                         continue
+                    if meth == "current_commit":
+                        # HEAD's hash, and "dirty" = the work tree OR the index differs from HEAD (git diff-index HEAD)
+                        want = [["git", "rev-parse", "HEAD"]] + ([["git", "diff-index", "--quiet", "HEAD"]] if rc == 0 else [])
+                        if [c[0] for c in calls] != want:
+                            a.fail("current_commit_argv", "current_commit-wrong-git-commands", inp, want, [c[0] for c in calls])
+                            continue
                     bad = [c for c in calls if c[1].get("cwd") is None or pathlib.Path(c[1].get("cwd")) != root]
                     if bad:
                         a.fail(meth + "_cwd", "git-not-run-in-project-root", inp, str(root), [(c[0], str(c[1].get("cwd"))) for c in bad])
@@ -658,12 +664,12 @@ def run(tier, seed):
              "commit is any DAG commit / null / unknown to the DAG x all timestamp orders"
              % (len(dags), max_commits, max_parents, max_versions))
     return [
-        sel.result("C05.select.matches_documented_rule", "C05",
+        sel.result("C05.select.matches_documented_rule", ["C05", "C02", "C07"],
                    "task_types/run.py::RunExperiment._retrieve_most_relevant_existing_version",
                    scope, True,
                    "distinct (DAG, git, HEAD, version list); non-trivial = git used, HEAD exists, >= 2 versions, "
                    "at least one carrying a commit of the DAG", wall_sel),
-        run_.result("C05.should_run.at_least_rule", "C05",
+        run_.result("C05.should_run.at_least_rule", ["C05", "C02"],
                     "task_types/run.py::RunExperiment.should_run",
                     scope + " x at_least in {none} + every commit that is HEAD or an ancestor of HEAD", True,
                     "distinct (DAG, git, HEAD, version list, at_least); non-trivial = at_least given and a "
@@ -672,7 +678,7 @@ def run(tier, seed):
                     "task_types/run.py::RunExperiment.get_output_path", scope, True,
                     "distinct (DAG, git, HEAD, version list); non-trivial = some version is selected",
                     wall_sel),
-        argv.result("C05.git_argv", ["C05", "C17"], "utils/git.py::Git.{is_used,current_commit,rev_parse,is_ancestor,get_distance}",
+        argv.result("C05.git_argv", ["C05", "C17", "C06"], "utils/git.py::Git.{is_used,current_commit,rev_parse,is_ancestor,get_distance}",
                     "2 project roots x 5x5 commit symbols x git exit codes {0,1,128} (is_ancestor) / "
                     "stdout {'0','3',' 12 '} (get_distance); subprocess.run recorded", True,
                     "distinct (function, root, two symbols, git answer); non-trivial = the two symbols differ",
